@@ -10,29 +10,29 @@ TEXT = {
             'Bounds: 3 machines, 2 reservation names, task duration 2. num_provisioned_obs is asserted only on histories that follow the provisioning protocol.'),
     'C03': ('Engine B proves start == max(allocation time, predecessor finish + volume/bandwidth) for <= 3 cross-machine predecessors over unbounded integers from the current source of Task._wait_for_transfer/do_work; CrossHair decides _find_pred_allocations, a case-split box of finish times x volumes on the real do_work (Engine-A companion of the Engine-B result) and one round of each shipped algorithm on symbolic DAG/finished maps; whole simulations (incl. volumes that are not multiples of the bandwidth, one predecessor feeding successors over edges of different volume) check the task table against the scenario graph, not against the plan under test.',
             'Exact under bandwidth | volume (lemma L3, solver-checked to 2^8/2^11 bits); rational reading otherwise. DAGs <= 3 tasks in whole-simulation runs.'),
-    'C04': ('Whole bounded simulations of the real actors (real SimPy, real networkx, pandas stub) under Batch/Queue/adversarial algorithms and injected delays; on return: every observation observed once, every ingest and workflow task activated exactly once, quiescent state, task table has one row per executed task; a run under a shipped algorithm that is aborted by an exception is reported as well.',
+    'C04': ('Whole bounded simulations of the real actors (real SimPy, real networkx, pandas stub) under Batch/Queue/adversarial algorithms and injected delays; on return: every observation observed once, every ingest and workflow task activated exactly once, quiescent state, task table has one row per executed task; a run under a shipped algorithm that is aborted by an exception is reported as well, as is one aborted under a user algorithm that only proposes the same free machine several times in one call (the Scheduler defers duplicates).',
             'Bounds: <= 3 observations, <= 3 tasks, starts 0..4, durations 1..3; time-like inputs are case-split by the solver and each case runs natively.'),
     'C05': ('Unit harness "a transient shortage only postpones" (machines busy / ingest limit used up for k steps, buffer sizes unbounded symbolic); whole simulations with a step cap equal to the serial bound of the statement: unbounded symbolic data rates/capacities (traced end to end) and case-split timing grids with machine/ingest-limit shortage, three simultaneous starts and non-topological node labels; one round of the greedy algorithm on symbolic states; any exception or hitting the cap is a violation tagged by site / blocked-state signature.',
             'Two open known findings (tiering strands an observation in the cold buffer). Symbolic-size shards are bug-hunting only unless they exhaust (reported per shard). Horizon <= ~80 steps.'),
-    'C06': ('Engine B: Task.do_work/calculate_runtime executed symbolically from their current source into z3 integer terms; runtime formula, at-least-one, exit instant, flagging and monotonicity proved over unbounded integers (z3, cross-checked by cvc5); also through the scheduler path (update_allocation then do_work); float division cut by lemma L1 (QF_BVFP, checked each run); CrossHair end-to-end harnesses with the real cluster poll, task table and scheduler path; whole simulations check the recorded runtime of every task.',
+    'C06': ('Engine B: Task.do_work/calculate_runtime executed symbolically from their current source into z3 integer terms; runtime formula, at-least-one, exit instant, flagging and monotonicity proved over unbounded integers (z3, cross-checked by cvc5); also through the scheduler path (update_allocation then do_work); float division cut by lemma L1 (QF_BVFP, checked each run); CrossHair end-to-end harnesses with the real cluster poll, task table and scheduler path; machine speeds 1..3 and the non-integer 1.5, 2.5; whole simulations check the recorded runtime of every task, and of every ingest task against the duration of its observation (also when it began late).',
             'L1 solver-checked for operands < 2^8 (quick) / 2^11 (thorough), argued to 2^26, not claimed above.'),
     'C07': ('Unit harnesses with unbounded symbolic rates/capacities: ingest stream deposits rate per step for duration steps, removal frees exactly the data once, admission predicate equals the room oracle (including data still to arrive), two overlapping ingests through the real admission path, the data of a finished workflow freed while another observation is mid-ingest, two Buffer objects built in one interpreter share nothing; whole simulations check both tiers after every step.',
             'Bounds: durations 1..4, two overlapping observations. Refusal paths that format operands into messages run over small case-split ranges.'),
-    'C08': ('One timestep of the real Telescope/Scheduler/Cluster/Buffer from symbolic load states (pools by prelude incl. machines reserved-idle for a batch workflow, arrays in use, unbounded buffer space/rates, two observations due); every started observation is checked against the state after earlier starts of the same step; on-time clause for an idle system; whole simulations (incl. four observations competing for the arrays) check array/ingest limits independently of the counter kept by the telescope, and ingest hold times.',
+    'C08': ('One timestep of the real Telescope/Scheduler/Cluster/Buffer from symbolic load states (pools by prelude incl. machines reserved-idle for a batch workflow, arrays in use, unbounded buffer space/rates, two observations due); every started observation is checked against the state after earlier starts of the same step; on-time clause for an idle system; whole simulations (incl. four observations competing for the arrays) check array/ingest limits independently of the counter kept by the telescope and of the status flags of the observations (arrays are held during [begin, begin + duration)), and ingest hold times.',
             'Bounds: 3 machines, 2 observations per step; quick tier varies array and machine resources in separate shards.'),
     'C09': ('Real BatchProcessing._provision_resources/_max_resource_provision/run on symbolic cluster states (1..4 machines, pools, partitions, minimum, per-observation split); foreign reserved machine refused; release returns the reservation; whole simulations with competing workflows check every allocation against the owner reservation and, every step, the size of each reservation (idle + busy for its owner) against its configured maximum.',
             'min_resources_per_workflow >= 1 (documented domain).'),
-    'C10': ('Two whole simulations of the same configuration inside one path with independent symbolic iteration ranks for the ready-task set (RankSet abstraction of hash order); outputs must be equal; counterexamples are confirmed by searching real PYTHONHASHSEED values in sub-processes before they are reported; the builtin hash seen by topsim modules salts strings differently in the two runs (planner-owned seeded delay model); seeded delay streams equal for seeds 0, 7, 20, a second seed/degree asked afterwards draws from its own stream; 18 real-interpreter runs under different PYTHONHASHSEED validate the abstraction.',
+    'C10': ('Two whole simulations of the same configuration inside one path with independent symbolic iteration ranks for the ready-task set (RankSet abstraction of hash order); outputs must be equal; counterexamples are confirmed by searching real PYTHONHASHSEED values in sub-processes before they are reported; the builtin hash seen by topsim modules salts strings differently in the two runs (planner-owned seeded delay model); seeded delay streams equal for seeds 0, 7, 20, a second seed/degree asked afterwards draws from its own stream; workflow node names that are strings sharing a trailing number; a second simulation given the planning object of the first one, with real workflow files parsed by the real planner; the real-interpreter runs under different PYTHONHASHSEED validate the abstraction.',
             "CPython's actual set layout is not modelled: rank orders over-approximate hash seeds; cross-process equality is replayed, not proved."),
     'C11': ('Real Simulation.start(k) + resume(...) against one uninterrupted start(T) for every pause point k and second cut j (solver case-split), also with j as the final horizon and with a first observation that starts after the earliest pauses; state, step table, task table and event log compared; refusals of start-twice / resume-before-start leave everything unchanged.',
             'T = 16, two resume segments, two observations, Batch and Queue.'),
-    'C12': ('Whole simulations with a probe process registered ahead of the monitor: every row of the per-timestep table equals the state computed independently from pools/lists, one row per step in order; fixed-horizon runs through the public API beyond completion (in one piece and paused).',
+    'C12': ('Whole simulations with a probe process registered ahead of the monitor: every row of the per-timestep table equals the state computed independently from pools/lists, one row per step in order; the buffer columns also against the data resident (streamed in, not yet removed) and the finished-observations column against elapsed observation windows, both independent of the counters and flags kept by the actors; fixed-horizon runs through the public API beyond completion (in one piece and paused), also with durations that are not a whole number of timesteps.',
             'Bounds as C04; overlapping ingests ending at different times included.'),
     'C13': ('Same runs as C12; event log checked per observation: each of the eight transitions exactly once, correct stamps, causal order, finished - started == duration (also checked on the partial log of a run that hits the step cap); paused fixed-horizon runs: no transition logged twice.',
             'Bounds as C04.'),
     'C14': ('Real Planner.run -> BatchPlanning.generate_plan (real networkx) on symbolic DAGs: adjacency bits, compute, optional data demand and edge volumes are solver variables, node labels permuted, edges inserted in either order; plan compared with the graph; predecessor/successor queries mutually inverse; the same planner plans a second observation from the same workflow and the first plan is checked again.',
             'Bounds: <= 3 nodes (quick) / 4 nodes all permutations (thorough); unbounded integer attributes.'),
-    'C15': ('Real DelayModel.generate_delay with numpy replaced by a generator stub whose draws are solver variables: no exception, never shorter, unchanged for degree none / prob 0 / runtime 0, deterministic per seed, a second seed used afterwards draws from its own stream; real Task.do_work + Scheduler._update_current_plan for the flag and DELAYED status; whole simulations with injected delay vectors check at every step that the delayed report persists.',
+    'C15': ('Real DelayModel.generate_delay with numpy replaced by a generator stub whose draws are solver variables: no exception, never shorter, unchanged for degree none / prob 0 / runtime 0, deterministic per seed, a second seed used afterwards draws from its own stream; real Task.do_work + Scheduler._update_current_plan for the flag and DELAYED status (delayed task recorded with tasks left to run, and by the pass that empties the plan); whole simulations with injected delay vectors check at every step that the delayed report persists.',
             "numpy's distributions are replaced by contract E7 (seeded streams deterministic, unseeded fresh, normal(mu,0)=mu, poisson(0)=0). Runtimes 0..6."),
     'C16': ('CrossHair on the real Config.parse_cluster_config / parse_buffer_config with a symbolic unit (string or integer) and unbounded rates, every section parsed twice from one Config object; Engine B slices of the three multiplier ladders and of the Observation(...) arguments in parse_instrument_config; derived invariants as two-copy queries.',
             'Whole multiples of the unit (lemma L3); round() of integer rates.'),
@@ -40,7 +40,7 @@ TEXT = {
             'Static planner output is arbitrary (stub E6), not HEFT specifically.'),
     'C18': ('Real Buffer.move_hot_to_cold / move_cold_to_hot as SimPy processes with unbounded symbolic size, both rates, capacities and other resident data: per-step conservation, slower rate, ceil(size/rate) steps, exactly one tier afterwards, refused move leaves everything unchanged, round trip.',
             'Moves of <= 3 transfer steps (quick) / 6 (thorough).'),
-    'C19': ('Each idle/empty/finished query against an independent oracle on symbolic actor states built by prelude (every pool vector, unbounded buffer sizes, observation states), and Simulation.is_finished iff all four; buffer capacities 10^3..10^18; the same comparison at every step of whole simulations.',
+    'C19': ('Each idle/empty/finished query against an independent oracle on symbolic actor states built by prelude (every pool vector, unbounded buffer sizes, observation states, array total independent of the demands), and Simulation.is_finished iff all four; buffer capacities 10^3..10^18; the same comparison at every step of whole simulations.',
             'Bounds: 3 machines, 2 observations at unit level.'),
 }
 
